@@ -334,7 +334,7 @@ def run(ctx):
     mc_run(ctx.pick("GadgetLayout_mc_prefix.cfg", "GadgetLayout_mc_prefix_thorough.cfg"), ctx.pick(8, 16), 1500)
     bound_note = None
     if not ctx.quick:
-        est = geo.wall * 30
+        est = geo.wall * 10        # measured: 19x / 49x the states of the quick geometry run, but no -coverage
         if est <= 1500:
             mc_run("GadgetLayout_mc_thorough.cfg", 16, 2400, heap="16g")
             mc_run("GadgetLayout_mc_rich.cfg", 16, 2400, heap="16g")
